@@ -166,6 +166,7 @@ impl Prop for C08 {
         for m in ["F", "ModF", "P", "ModP"] {
             v.push(format!("adjusted:{}:moved", m));
         }
+        v.push("calendar:inside-CalType-container".to_string());
         v
     }
     fn min_evaluations(&self, tier: Tier) -> u64 {
@@ -319,6 +320,9 @@ impl Prop for C08 {
                         return;
                     }
                 };
+                if any.is_wrapped() {
+                    ctx.class("calendar:inside-CalType-container");
+                }
                 with_cal!(&any, c => {
                     let bits = CalBits::build(c, z0 - 1700, z1 + 1700);
                     for k in 0..2000 {
